@@ -157,9 +157,43 @@ type htmlInfo struct {
 	startTags int
 	starts    map[string]int
 	defaults  map[string]int // tag/attr of attributes that have a default value rule, with a non-empty value
+	condText  string         // text inside conditional comments
 }
 
 var reAttr = regexp.MustCompile(`(?s)[\s/]+([^\s/>=]+)(\s*=\s*("[^"]*"|'[^']*'|[^\s>]+))?`)
+
+var reCondComment = regexp.MustCompile(`(?s)^<!--(\[if [^\]]*\]>)(.*)(<!\[endif\])-->$`)
+
+// scanHTMLCond is scanHTML, and with inner set the markup inside downlevel-hidden conditional comments counts as
+// well: it is HTML that is minified with the same options when such comments are kept
+func scanHTMLCond(src string, inner bool) htmlInfo {
+	inf := scanHTML(src)
+	if !inner {
+		return inf
+	}
+	for _, cm := range inf.comments {
+		if m := reCondComment.FindStringSubmatch(cm); m != nil {
+			sub := scanHTMLCond(m[2], true)
+			for k, v := range sub.endTags {
+				inf.endTags[k] += v
+			}
+			for k, v := range sub.starts {
+				inf.starts[k] += v
+			}
+			for k, v := range sub.unquoted {
+				inf.unquoted[k] += v
+			}
+			for k, v := range sub.quoted {
+				inf.quoted[k] += v
+			}
+			for k, v := range sub.defaults {
+				inf.defaults[k] += v
+			}
+			inf.condText += "|" + sub.text
+		}
+	}
+	return inf
+}
 
 func scanHTML(src string) htmlInfo {
 	inf := htmlInfo{endTags: map[string]int{}, docStart: map[string]int{}, unquoted: map[string]int{}, quoted: map[string]int{}, starts: map[string]int{}, defaults: map[string]int{}}
@@ -249,7 +283,9 @@ func checkHTMLKeep(c Case) (out string, err error) {
 	if merr != nil {
 		return out, fmt.Errorf("conforming HTML rejected: %v\n--- input:\n%s", merr, c.Src)
 	}
-	in, ou := scanHTML(c.Src), scanHTML(out)
+	// kept conditional comments are minified inside with the same options (KeepComments keeps them verbatim)
+	condInner := (c.Opts.HTMLKeepSpecial || c.Opts.HTMLKeepCondComments) && !c.Opts.HTMLKeepComments
+	in, ou := scanHTMLCond(c.Src, condInner), scanHTMLCond(out, condInner)
 	show := func(f string, a ...interface{}) error {
 		return fmt.Errorf(f+"\n--- options: %+v\n--- input:\n%s\n--- output:\n%s", append(a, c.Opts, c.Src, out)...)
 	}
@@ -313,6 +349,9 @@ func checkHTMLKeep(c Case) (out string, err error) {
 		// whitespace is collapsed but never removed: the text of the document, runs collapsed, is the same
 		a := reSpaces.ReplaceAllString(in.text, " ")
 		b := reSpaces.ReplaceAllString(ou.text, " ")
+		if ca, cb := reSpaces.ReplaceAllString(in.condText, " "), reSpaces.ReplaceAllString(ou.condText, " "); strings.ReplaceAll(ca, " ", "") != strings.ReplaceAll(cb, " ", "") || strings.Count(ca, " ") > 0 && strings.Count(cb, " ") == 0 {
+			return out, show("KeepWhitespace: the text inside conditional comments lost its whitespace\n--- input:\n%q\n--- output:\n%q", ca, cb)
+		}
 		if strings.TrimSpace(a) != strings.TrimSpace(b) {
 			return out, show("KeepWhitespace: the text of the document (whitespace runs collapsed) changed\n--- text of the input:\n%q\n--- text of the output:\n%q", a, b)
 		}
